@@ -135,8 +135,7 @@ class TCPServer:
             pass  # Likely SSL connection
 
         try:
-            self.writer.close()
-            await self.writer.wait_closed()
+            await self._close_writer()
         except (
             BrokenPipeError,
             ConnectionAbortedError,
@@ -148,9 +147,36 @@ class TCPServer:
         finally:
             await self.idle_task.stop()
 
+    async def _close_writer(self) -> None:
+        self.writer.close()
+        transport = getattr(self.writer, "transport", None)
+
+        def buffered() -> int:
+            try:
+                return transport.get_write_buffer_size()
+            except AttributeError:
+                return 0  # A SSL transport that has already closed
+
+        while transport is not None:
+            # What is still to be written is written first, to a client
+            # that takes it. One that has not taken any of it for as
+            # long as an idle connection is kept is not waited for.
+            remaining = buffered()
+            try:
+                await asyncio.wait_for(self.writer.wait_closed(), self.config.keep_alive_timeout)
+            except asyncio.TimeoutError:
+                if buffered() >= remaining:
+                    transport.abort()
+            else:
+                break
+        await self.writer.wait_closed()
+
     async def _initiate_server_close(self) -> None:
         await self.protocol.handle(Closed())
-        self.writer.close()
+        try:
+            await self._close_writer()
+        except (ConnectionError, RuntimeError):
+            pass  # Already closed
 
     async def _idle_timeout(self) -> None:
         try:
